@@ -6,6 +6,7 @@ import (
 	"database/sql"
 	"encoding/json"
 	"fmt"
+	"os"
 	"sort"
 	"strings"
 	"sync/atomic"
@@ -17,6 +18,7 @@ import (
 
 	seatasql "seata.apache.org/seata-go/pkg/datasource/sql"
 	"seata.apache.org/seata-go/pkg/datasource/sql/datasource"
+	"seata.apache.org/seata-go/pkg/datasource/sql/undo"
 	"seata.apache.org/seata-go/pkg/protocol/branch"
 	"seata.apache.org/seata-go/pkg/rm"
 
@@ -57,6 +59,8 @@ type Case struct {
 	ConnFaults int    `json:"conn_faults"` // the first n connection attempts of the resource fail
 	// MixedCase: the second resource's id contains upper-case letters (schema Orders_EU)
 	MixedCase bool `json:"mixed_case,omitempty"`
+	// LogTable: how the undo-log table is named in the configuration: "" = undo_log, or quoted / schema-qualified spellings
+	LogTable string `json:"log_table,omitempty"`
 }
 
 type second struct {
@@ -150,6 +154,10 @@ func runCase(c Case) *pt.Failure {
 	return pt.Guard("C11/crash", func() *pt.Failure {
 		env.ResetCase()
 		env.CleanUndo()
+		if c.LogTable != "" {
+			undo.InitUndoConfig(undo.Config{DataValidation: true, LogSerialization: "json", LogTable: c.LogTable, OnlyCareUpdateColumns: true})
+			defer atenv.UndoConfig("json", "None", true, true)
+		}
 		srvs := []*memsql.Server{env.Srv}
 		bares := []*sql.DB{env.Bare}
 		resIDs := []string{env.ResourceID}
@@ -367,7 +375,36 @@ func TestMain(m *testing.M) {
 	ctx.Main(m)
 }
 
+var burstDone bool
+
+// burstCase: more accepted commits for one resource than fit any batch bound (1000), in one flush; once per process.
+func burstCase() Case {
+	sh := 0
+	if v := os.Getenv("VERIF_SHARD"); v != "" {
+		fmt.Sscanf(v, "%d", &sh)
+	}
+	n := []int{1001, 2500, 1000, 2001}[sh%4]
+	c := Case{Kind: "worker", Conf: Conf{BufferLimit: 10000, IntervalMs: 400, ReceiveChanSize: 64, Workers: 1 + sh%2, WorkerBuffer: 4}}
+	for i := 0; i < n; i++ {
+		p := Pair{Res: 0, Xid: fmt.Sprintf("192.168.0.1:8091:%d", 20+i%3), BranchID: int64(1000 + i)}
+		c.Rows = append(c.Rows, p)
+		c.Requests = append(c.Requests, p)
+	}
+	// a few rows that must stay
+	for i := 0; i < 5; i++ {
+		c.Rows = append(c.Rows, Pair{Res: 0, Xid: "192.168.0.1:8091:20", BranchID: int64(900000 + i)})
+	}
+	return c
+}
+
 func TestPropUndoLogDeletion(t *testing.T) {
+	if !burstDone {
+		burstDone = true
+		c := burstCase()
+		fl := runCase(c)
+		ctx.Rec.Case("deletion", true, "burst", c, "shape:burst", "kind:worker")
+		ctx.Judge(t, "deletion", fl, c)
+	}
 	ctx.Check(t, func(rt *rapid.T) {
 		c := Case{Kind: "worker"}
 		if rapid.IntRange(0, 7).Draw(rt, "real") == 0 {
@@ -378,6 +415,10 @@ func TestPropUndoLogDeletion(t *testing.T) {
 		c.SecondRes = rapid.IntRange(0, 3).Draw(rt, "second") == 0
 		c.LateRes = c.SecondRes && rapid.Bool().Draw(rt, "late")
 		c.MixedCase = c.SecondRes && rapid.Bool().Draw(rt, "mixedCase")
+		c.LogTable = rapid.SampledFrom([]string{"", "", "", "`undo_log`", "db.undo_log", "`db`.`undo_log`"}).Draw(rt, "logTable")
+		if c.SecondRes && c.MixedCase && strings.Contains(c.LogTable, ".") {
+			c.LogTable = "`undo_log`" // the schema-qualified spelling names schema db, the second resource lives elsewhere
+		}
 		nres := 1
 		if c.SecondRes {
 			nres = 2
